@@ -137,6 +137,9 @@ var vfC01Shapes = [][2]string{
 	{"GEOMETRYCOLLECTION(GEOMETRYCOLLECTION(POLYGON((0 0,2 0,2 2,0 2,0 0))),GEOMETRYCOLLECTION(LINESTRING(1 1,5 1)))", "POLYGON((1 0,3 0,3 3,1 3,1 0))"},
 	{"LINESTRING(0 0,4 0,4 4,0 4,0 0)", "POLYGON((2 -1,6 -1,6 5,2 5,2 -1))"},
 	{"MULTIPOLYGON(((0 0,2 0,2 2,0 2,0 0)),((2 2,4 2,4 4,2 4,2 2)))", "POLYGON((1 1,3 1,3 3,1 3,1 1))"},
+	// six squares cut by a rectangle; a polygon with four holes against points and a line
+	{"MULTIPOLYGON(((0 0,2 0,2 2,0 2,0 0)),((4 0,6 0,6 2,4 2,4 0)),((8 0,10 0,10 2,8 2,8 0)),((0 4,2 4,2 6,0 6,0 4)),((4 4,6 4,6 6,4 6,4 4)),((8 4,10 4,10 6,8 6,8 4)))", "POLYGON((1 1,9 1,9 5,1 5,1 1))"},
+	{"POLYGON((0 0,20 0,20 20,0 20,0 0),(2 2,8 2,8 8,2 8,2 2),(12 12,18 12,18 18,12 18,12 12),(12 2,18 2,18 8,12 8,12 2),(2 12,8 12,8 18,2 18,2 12))", "GEOMETRYCOLLECTION(LINESTRING(-1 5,21 5),MULTIPOINT(5 5,10 10,15 15))"},
 	// a line that doubles back over itself and only then crosses the other operand
 	{"LINESTRING(0 0,4 0,0 0,0 5)", "POLYGON((-1 2,1 2,1 4,-1 4,-1 2))"},
 	{"LINESTRING(0 0,4 0,2 0,2 3)", "LINESTRING(1 2,3 2)"},
